@@ -3,15 +3,15 @@ import Driver.Codec
 /-!
   Per-run evaluator of the TRANSLATED SINK BLOCK OF THE ENGINE (`Rbacx.Generated.Src.engine_sinks`, a sink-call trace —
   Model/PySinks.lean): one JSON line in —
-  `{"sinks": {parameter: null | {"coro": bool, "raises": bool}, …}, "opaque": {parameter: value, …}, "args": {input variable: value, …}}`
-  (`sinks`: per sink parameter — `metrics_inc`, `metrics_observe`, `logger_sink_log` — what the attribute look-up finds: nothing, a plain
-  function or a coroutine function, returning or raising; `opaque`: the opaque values (the measured duration); `args`: the input
+  `{"sinks": {parameter: null | {"spelling": "plain" | "coroFn" | "awaitable", "raises": bool}, …}, "opaque": {parameter: value, …}, "args": {input variable: value, …}}`
+  (`sinks`: per sink parameter — `metrics_inc`, `metrics_observe`, `logger_sink_log` — what the attribute look-up finds: nothing, or a
+  function in one of the three spellings (`def`, `async def`, `def` returning an awaitable) whose work returns or raises; `opaque`: the opaque values (the measured duration); `args`: the input
   variables by their python names, `self.metrics` / `self.logger_sink` = `null` or any other value for "configured"; a `Decision` is
   the JSON object of its fields) — one JSON line out:
-  `{"calls": [{"callee", "coro", "args": […]} …], "ending": "next" | "raised" | {"returned": value}}`.
+  `{"calls": [{"callee", "args": […]} …]` (the sink calls whose WORK RAN), "ending": "next" | "raised" | {"returned": value}}`.
   The generated dispatcher `Src.evalSinks` follows the block's current signature.  The harness (`translated_vs_python` in
   harness/props/c11.py) compiles the SAME statements as a real `async def` from the source text (pytolean_sinks.block_as_python), runs
-  them with CPython against recording sink objects — `def`, `async def`, raising, missing attribute, `metrics=None`, `logger_sink=None`
+  them with CPython against recording sink objects — `def`, `async def`, `def` returning a coroutine / an awaitable object, raising, missing attribute, `metrics=None`, `logger_sink=None`
   — and compares the call lists and the returned value: this validates the readings the obligation `C11_sinks_translated` trusts (sinks
   as parameters, `try/except Exception` as `tryExcept`, the awaited / plain call of a coroutine / plain function) and Model/PyLib.lean.
   Kept apart from the other evaluators so that a change to the sink block cannot break the other runs.
@@ -25,7 +25,11 @@ def decSinks (j : Json) : String → Rbacx.PyS.Sink :=
     match entries.find? (fun e => e.1 == name) with
     | some (_, .obj kvs) =>
       let b (k : String) : Bool := match (Json.obj kvs).getObjVal? k with | .ok (.bool true) => true | _ => false
-      .fn (b "coro") (b "raises")
+      let sp : Rbacx.PyS.Spelling := match (Json.obj kvs).getObjVal? "spelling" with
+        | .ok (.str "coroFn") => .coroFn
+        | .ok (.str "awaitable") => .awaitable
+        | _ => .plain
+      .fn sp (b "raises")
     | _ => .absent
 
 /-- a JSON object of values as a lookup by name (`None` for a name that is not listed) -/
@@ -35,7 +39,7 @@ def decNamed (j : Json) : Except String (String → PyVal) := do
   pure fun name => match rows.find? (fun e => e.1 == name) with | some e => e.2 | none => PyVal.none
 
 def encCall (c : Rbacx.PyS.Call) : Json :=
-  Json.mkObj [("callee", .str c.callee), ("coro", .bool c.coro), ("args", .arr (c.args.map encVal).toArray)]
+  Json.mkObj [("callee", .str c.callee), ("args", .arr (c.args.map encVal).toArray)]
 
 def encTrace (t : Rbacx.PyS.Trace) : Json :=
   Json.mkObj [("calls", .arr (t.calls.map encCall).toArray),
